@@ -3,7 +3,7 @@
    theorems through the wiring of the real server, which the end-to-end parts of the C04 / C19 / C06 checks exercise
    (humphrey_server::server::main started from configuration texts, model = serve_text on the same text). *)
 From Hv Require Import Prelude Bytes TablesHttp TablesConfig Http Krauss Routing RoutingProofs Blacklist StaticFs StaticFsProofs
-  Config Server ServerProofs.
+  Config HttpReqSpec HttpReqProofs Server ServerProofs.
 Open Scope N_scope.
 
 (* C04: whatever is configured, the route that answers is the one the routing rule names (first matching host, first
@@ -69,7 +69,17 @@ Example C04_server_example :
   serve (ex_peer [49;50;55;46;48;46;48;46;49]) (ex_req [120] [47;122;122;122] None) = Some (SStatic (R200 [60;105;62] (Some [116;101;120;116;47;104;116;109;108]))).
 Proof. cbv zeta. repeat split; vm_compute; reflexivity. Qed.
 
+(* the WebSocket pass-through: when an upgrade request is routed to a route with a `websocket` target, what that target is
+   handed before the raw tunnel starts is the upgrade request itself (it parses back to an equivalent request) *)
+Theorem C04_server_ws_tunnel_sees :
+  forall ipp fs (c : config) p b0 rest req t,
+    parse_request_flat ipp p b0 = Ok (req, rest) -> server_response ipp fs c p req = SWsProxy t ->
+    exists b r', ws_forwarded_bytes ipp fs c p req = Some b /\
+      parse_request_flat ipp p b = Ok (r', []) /\ req_equiv r' req.
+Proof. exact server_ws_tunnel_sees. Qed.
+
 Print Assumptions C04_server_routes_by_rule.
+Print Assumptions C04_server_ws_tunnel_sees.
 Print Assumptions C04_server_wiring_total.
 Print Assumptions C04_server_ws_wiring_total.
 Print Assumptions C04_server_example.
